@@ -148,7 +148,9 @@ func runC15Binary(c *engine.Ctx) {
 	}
 	cfgs := []cfg{
 		{"bolt", false, func(d string) []string { return []string{"-backend", "bolt", "-bolt.db", filepath.Join(d, "db.bolt")} }},
-		{"fs", false, func(d string) []string { return []string{"-backend", "fs", "-fs.path", filepath.Join(d, "fs"), "-fs.create"} }},
+		{"fs", false, func(d string) []string {
+			return []string{"-backend", "fs", "-fs.path", filepath.Join(d, "fs"), "-fs.create"}
+		}},
 		{"fs+meta", false, func(d string) []string {
 			return []string{"-backend", "fs", "-fs.path", filepath.Join(d, "fs"), "-fs.meta", filepath.Join(d, "fsmeta"), "-fs.create"}
 		}},
